@@ -8,13 +8,13 @@ out_pre = [m for m in metas if not m['detected_by'] and 'outside the claim' in m
 undet = [m for m in metas if not m['detected_by'] and m not in out_pre]
 caught_own = [m for m in metas if m['breaks_property'] in m['detected_by']]
 caught_other = [m for m in metas if m['detected_by'] and m['breaks_property'] not in m['detected_by']]
-intro = ('%d changes from independent sub-agents (eleven rounds; later rounds were told which mechanisms had already been used and, '
+intro = ('%d changes from independent sub-agents (twelve rounds; later rounds were told which mechanisms had already been used and, '
          'from round four on, the well-formedness precondition). %d break a property on well-formed definitions: %d are caught by the check '
          'of the property they were written for, %d by the check of a neighbouring property that states the broken behaviour more directly '
          '(remarks column). About half were caught only after the check had been strengthened as noted in the last column - the misses were '
          'gaps in the definition families, in a per-call bound, in the attribution of a disagreement to a property, or std functions the '
          'executor had no summary for (inconclusive, not a pass). %d need definitions outside the precondition of the properties '
-         '(`$` not at the tail of a rule) and are not caught. %d (%s) is not decided: the check ends inconclusive (exit 2), see its row.'
+         '(`$` not at the tail of a rule, or a rule that matches the empty string) and are not caught. %d (%s) is not decided: the check ends inconclusive (exit 2), see its row.'
          % (n, n - len(out_pre), len(caught_own), len(caught_other), len(out_pre), len(undet), ', '.join(m['id'] for m in undet)))
 rows = ['| seed | property | change | caught by | not caught by / remarks |', '|---|---|---|---|---|']
 esc = lambda s: s.replace('|', '\\|')
